@@ -527,36 +527,58 @@ def file_oracle(ts, recs, N):
     return list(bad.values()), exp_on, stats
 
 
+PARTIAL = []   # crashed runs of the current check run (their completed programs are judged on the files alone)
+
+
 def run_whole_configs(ctx, n):
     """n generated configurations (the first one forced to contain intermittent sources, a repairable
     and a non-repairable one) run by the real simulator in parallel"""
     from harness import wholerun as W
 
     cfgs = [W.make_config(ctx.rng, **FORCED)] + [W.make_config(ctx.rng) for _ in range(max(0, n - 1))]
-    with cf.ThreadPoolExecutor(max_workers=min(8, max(1, len(cfgs)))) as ex:
-        results = list(ex.map(lambda c: W.run_config(c, debug=True, trace=True), cfgs))
+    jobs = [(c, True, 1) for c in cfgs]
+    # one pool-mode job per run: 6 programs on a 1-process pool, so that Pool.starmap sends several program
+    # tasks to the worker in one chunk (pickled together) — the ledger / counts / reconstruction oracles then
+    # also see outputs produced by the multiprocessing path of the simulator
+    pool_cfg = dict(cfgs[0])
+    have = {p["name"] for p in pool_cfg["programs"]}
+    pool_cfg["programs"] = list(pool_cfg["programs"]) + [p for p in (
+        {"name": "P_fix", "methods": ["FIX", "OGI_FU2"]}, {"name": "P_OGIb", "methods": ["OGI"]},
+        {"name": "P_airb", "methods": ["AIR", "OGI_FU"]}) if p["name"] not in have]
+    jobs.append((pool_cfg, False, 1))
+    with cf.ThreadPoolExecutor(max_workers=min(8, max(1, len(jobs)))) as ex:
+        results = list(ex.map(lambda j: W.run_config(j[0], debug=j[1], processes=j[2], trace=True), jobs))
+    for (c, dbg, procs), r in zip(jobs, results):
+        r.pool_mode = not dbg
     good, last = [], ""
     for k, r in enumerate(results):
+        r.crashed = r.rc != 0
         if r.rc != 0:
             ctx.count("wholerun_config_crashed")
-            ctx.note("whole run crashed (skipped here; crashes are judged by the property that owns them): "
+            ctx.note("whole run crashed (the crash is judged by the property that owns it; the (program, simulation) "
+                     "pairs that wrote both output files before it are still judged here): "
                      + r.log.strip().splitlines()[-1][:200])
             last = r.log
-            r.cleanup()
+            PARTIAL.append(r)
             if k == 0:
                 ctx.note("the forced intermittent configuration crashed")
+            if r.pool_mode:
+                ctx.count("wholerun_pool_job_crashed")
             continue
         good.append(r)
     if not good and results:
+        for r in PARTIAL:
+            r.cleanup()
         raise RuntimeError("every whole run failed (infrastructure): " + last[-2000:])
     return good
 
 
-def judge_program_run(ctx, res, recs_all, prog, sim, method_ids, delays, record=True):
+def judge_program_run(ctx, res, recs_all, prog, sim, method_ids, delays, record=True, conform=True):
     """oracle + model conformance for one (program, simulation); returns raised signatures"""
     ts = res.timeseries(prog, sim)
     recs = [r for r in recs_all if r["prog"] == prog and r["sim"] == sim]
-    inp = {"cfg": res.cfg, "prog": prog, "sim": sim}
+    inp = {"cfg": res.cfg, "prog": prog, "sim": sim, "pool_mode": bool(getattr(res, "pool_mode", False)),
+           "run_crashed_later": bool(getattr(res, "crashed", False))}
     N = res.ndays
     raised = []
     if ts is None or len(ts) != N:
@@ -584,6 +606,9 @@ def judge_program_run(ctx, res, recs_all, prog, sim, method_ids, delays, record=
         ctx.count("wholerun_program_with_preexisting_emissions_on_day0")
     if any(e[1] == N - 1 for r in recs for e in r["tags"]):
         ctx.count("wholerun_program_with_event_on_last_day")
+    if not conform:
+        ctx.count("wholerun_program_runs_of_crashed_configs_judged_on_files")
+        return raised
     # ---- conformance with the model ------------------------------------------------------------
     lines = ["world %d" % N]
     # the sampled repair delay is the configured value that reproduces the record (one driver call
@@ -640,15 +665,25 @@ def wholerun(ctx):
             for sim in range(res.n_sims):
                 for prog in res.programs:
                     judge_program_run(ctx, res, recs_all, prog, sim, method_ids, delays)
+                    if getattr(res, "pool_mode", False):
+                        ctx.count("wholerun_program_runs_pool_mode")
             ctx.sample({"whole_run": {k: res.cfg[k] for k in ("granular", "start", "end", "n_sites")},
                         "programs": res.programs,
                         "intermittent_sources": [s["source"] for s in res.cfg.get("sources", []) if not s["persistent"]]},
                        cap=8)
+        for res in PARTIAL:
+            recs_all = list(EC.records(res))
+            for sim in range(res.n_sims):
+                for prog in res.programs:
+                    if res.timeseries(prog, sim) is None or res.emissions(prog, sim) is None:
+                        continue
+                    judge_program_run(ctx, res, recs_all, prog, sim, {}, [], conform=False)
         if not ctx.counts.get("wholerun_program_with_intermittent_sources"):
             ctx.note("no whole run with intermittent sources in this run (forced configuration crashed?)")
     finally:
-        for res in results:
+        for res in results + PARTIAL:
             res.cleanup()
+        del PARTIAL[:]
 
 
 WITNESS = (4, [([(0, 10, 0, True, True, 1, 2, 1024)], [])])
@@ -702,15 +737,21 @@ def replay(ctx, data):
     if "cfg" in inp:
         from harness import wholerun as W
 
-        res = W.run_config(inp["cfg"], debug=True, trace=True)
+        pool = bool(inp.get("pool_mode"))
+        res = W.run_config(inp["cfg"], debug=not pool, processes=1, trace=True)
+        res.pool_mode = pool
         try:
-            if res.rc != 0:
-                print("replay: the stored configuration crashes:\n" + res.log[-1500:])
-                return 2
+            partial = res.rc != 0
+            if partial:
+                print("replay: the stored configuration crashes: " + res.log.strip().splitlines()[-1][:200])
+                if res.timeseries(inp["prog"], inp["sim"]) is None or res.emissions(inp["prog"], inp["sim"]) is None:
+                    print("replay: ... before the stored program wrote its two output files")
+                    return 2
             recs_all = list(EC.records(res))
             method_ids = {m: i + 1 for i, m in enumerate(sorted(res.cfg["methods"]))}
             delays = [int(x) for x in res.cfg["repair_delay"]]
-            raised = judge_program_run(ctx, res, recs_all, inp["prog"], inp["sim"], method_ids, delays, record=False)
+            raised = judge_program_run(ctx, res, recs_all, inp["prog"], inp["sim"], method_ids, delays, record=False,
+                                       conform=False)
             for s in raised:
                 print("oracle:", s)
             still = (sig in raised) if sig else bool(raised)
